@@ -4,6 +4,7 @@ import (
 	"context"
 	"fmt"
 	"math/rand"
+	"strings"
 	"sync"
 	"time"
 
@@ -35,7 +36,7 @@ func traceMode(in *mbt.Input, res *mbt.Result) {
 			res.Errors = append(res.Errors, err.Error())
 			return
 		}
-			ckDone := make(chan struct{})
+		ckDone := make(chan struct{})
 		gaps := make([]int, nck)
 		for i := range gaps {
 			gaps[i] = rng.Intn(2500)
@@ -110,7 +111,10 @@ func traceMode(in *mbt.Input, res *mbt.Result) {
 		if what == "" {
 			p, what = o.complete(stuckOK)
 		}
-		if what != "" {
+		for _, p := range strings.Split(p, "+") {
+			if what == "" {
+				break
+			}
 			res.Violations = append(res.Violations, mbt.Violation{Property: p, Behaviour: ri, Step: -1, What: fmt.Sprintf("free run %d (maxSize %d, delay %dms): %s", ri, maxSize, delayMs, what),
 				Observed: map[string]any{"streams": fmtStreams(o.streams), "read_order": fmt.Sprint(o.order), "checkpoints": o.ckpts}})
 		}
